@@ -11,6 +11,8 @@
 #include "drv_codecs.c"
 #include "varintFloat.h"
 #include "varintBitmap.h"
+#define DRV_SCALAR_NO_MAIN
+#include "drv_scalar.c"
 #include <alloca.h>
 #include <malloc.h>
 
@@ -157,6 +159,12 @@ static const pcall CALLS[] = {
     {"bitmap", 0, 0, "array_grow", 0},     {"bitmap", 0, 0, "bitmap_shrink", 0}, {"bitmap", 0, 0, "ranges", 0},
     {"bitmap", 0, 0, "algebra", 0},        {"bitmap", 0, 0, "recoded", 0},       {"bitmap", 0, 0, "many", 0},
     {"bitmap", 0, 0, "optimize", 0},
+    /* scalar varints: every put / get entry point of a family (param: 0 tagged,
+     * 1 external, 2 chained, 3 split families) on the boundary domain that
+     * ScalarGen.tla generates (VERIF_SCALAR_VALUES); the destination window's
+     * previous content differs from schedule to schedule */
+    {"scalar", 0, 0, "boundary", 0},       {"scalar", 1, 0, "boundary", 0},
+    {"scalar", 2, 0, "boundary", 0},       {"scalar", 3, 0, "boundary", 0},
 };
 #define NCALLS (sizeof(CALLS) / sizeof(CALLS[0]))
 
@@ -514,6 +522,90 @@ static void run_bitmap_call(size_t ci, const char *sched, const char *proc) {
     free(members);
 }
 
+
+/* --- scalar varints -------------------------------------------------------- */
+static uint64_t g_sc_h, g_sc_hy;
+static long long g_sc_bytes, g_sc_calls;
+static void scalar_hook(const char *fam, const char *put, uint64_t v, int w, int start, int pret, int gret,
+                        uint64_t val) {
+    (void)fam;
+    (void)put;
+    (void)v;
+    (void)w;
+    /* exactly the bytes the encoder reports as written, the lengths, the decoded value */
+    for (int i = 0; i < pret && start + i < WIN; i++) {
+        g_sc_h = (g_sc_h ^ win[start + i]) * 1099511628211ULL;
+    }
+    g_sc_h = (g_sc_h ^ (uint64_t)(pret & 255)) * 1099511628211ULL;
+    g_sc_hy = (g_sc_hy ^ val) * 1099511628211ULL;
+    g_sc_hy = (g_sc_hy ^ (uint64_t)(gret & 255)) * 1099511628211ULL;
+    g_sc_bytes += pret > 0 ? pret : 0;
+    g_sc_calls++;
+}
+static __attribute__((noinline)) void scalar_family(long fam, uint64_t v) {
+    switch (fam) {
+    case 0:
+        do_tagged(v);
+        break;
+    case 1:
+        do_ext(v);
+        break;
+    case 2:
+        do_chained(v);
+        break;
+    default:
+        do_split(v);
+        break;
+    }
+}
+static void scalar_prev_cb(const char *arg, const void *ctx) {
+    const pcall *c = (const pcall *)ctx;
+    long fam = strncmp(arg, "same", 4) ? (c->param + 1) % 4 : c->param;
+    g_win_salt = 0x77;
+    for (size_t i = 0; i < nvals; i += 37) {
+        scalar_family(fam, ~vals[i]);
+    }
+}
+static void run_scalar_call(size_t ci, const char *sched, const char *proc) {
+    const pcall *c = &CALLS[ci];
+    static int loaded;
+    if (!loaded) {
+        loaded = 1;
+        if (getenv("VERIF_SCALAR_VALUES")) {
+            load_values(getenv("VERIF_SCALAR_VALUES"));
+        }
+    }
+    if (nvals == 0) {
+        return;
+    }
+    g_rt_hook = scalar_hook;
+    apply_sched(sched, 64, ci, scalar_prev_cb, c);
+    uint64_t hs = 1469598103934665603ULL;
+    for (const char *q = sched; *q; q++) {
+        hs = (hs ^ (uint8_t)*q) * 1099511628211ULL;
+    }
+    g_win_salt = (unsigned)(hs % 251);
+    fillctr = 0;
+    g_sc_h = g_sc_hy = 1469598103934665603ULL;
+    g_sc_bytes = g_sc_calls = 0;
+    int f = 0;
+    for (size_t i = 0; i < nvals && !f; i++) {
+        f = GUARDED(scalar_family(c->param, vals[i]));
+    }
+    set_perturb(0x5E);
+    ev_begin("Call");
+    ev_str("id", g_cur_id);
+    ev_str("proc", proc);
+    ev_str("sched", sched);
+    ev_int("fault", f);
+    ev_int("written", f ? -1 : g_sc_bytes);
+    ev_limbs("digest", g_sc_h);
+    ev_int("decoded", g_sc_calls);
+    ev_limbs("ydigest", g_sc_hy);
+    ev_bytes("head", (const uint8_t *)"", 0);
+    ev_end();
+}
+
 /* the stack / heap paints of a schedule, once more (directly before a reader) */
 static void repaint(const char *sched, size_t n) {
     char tmp[512];
@@ -566,6 +658,10 @@ static void run_call(size_t ci, const char *sched, const char *proc) {
     }
     if (!strcmp(c->codec, "bitmap")) {
         run_bitmap_call(ci, sched, proc);
+        return;
+    }
+    if (!strcmp(c->codec, "scalar")) {
+        run_scalar_call(ci, sched, proc);
         return;
     }
     int codec = -1;
